@@ -451,7 +451,7 @@ func (v *VM) run() {
 					highIdx = numElements
 				}
 				var val Object = &Array{
-					Value: left.Value[lowIdx:highIdx],
+					Value: append([]Object{}, left.Value[lowIdx:highIdx]...),
 				}
 				v.allocs--
 				if v.allocs == 0 {
